@@ -203,7 +203,15 @@ func runBatcherImpl(c BatcherCase) (evs []Ev, big, invalid int, terminated bool)
 	default:
 	}
 	sh.CancelFunc()
-	<-done
+	// the batcher may be parked in a blocking send of a tick that fired after the last drain (its
+	// sends do not watch the termination context): keep receiving, and discard, until it has returned
+	nlog := len(evs)
+	for i := 0; i < 2000; i++ {
+		if step(nil, 50*time.Millisecond) == "done" {
+			break
+		}
+	}
+	evs = evs[:nlog]
 	close(statsCh)
 	<-statsDone
 	return
